@@ -195,7 +195,7 @@ pub fn run(ctx: &Ctx) {
     });
     ctx.run.space(json!({"channel": "arguments", "flag_subsets": arg_subsets.len(), "bound": if thorough {"all 2^16 subsets"} else {"<=2 of 16 flags"}, "inputs": arg_inputs.len(), "thresholds": "default, (2,1), (1,2) when --repetitions is set"}));
     // the three other channels x line endings x final newline
-    let ch_subsets = if thorough { subsets_le(3) } else { subsets_le(1) };
+    let ch_subsets = if thorough { subsets_le(3) } else { subsets_le(2) };
     let mut ch_inputs: Vec<&Vec<String>> = inputs.iter().collect();
     ch_inputs.extend(file_only.iter());
     par_for(ch_subsets.len() * ch_inputs.len(), |j| {
@@ -213,7 +213,7 @@ pub fn run(ctx: &Ctx) {
             }
         }
     });
-    ctx.run.space(json!({"channels": "-f file, - (stdin), -f - (file name on stdin)", "flag_subsets": ch_subsets.len(), "bound": if thorough {"<=3 of 16 flags"} else {"<=1 of 16 flags"}, "inputs": ch_inputs.len(), "endings": "LF/CRLF x final newline/none"}));
+    ctx.run.space(json!({"channels": "-f file, - (stdin), -f - (file name on stdin)", "flag_subsets": ch_subsets.len(), "bound": if thorough {"<=3 of 16 flags"} else {"<=2 of 16 flags"}, "inputs": ch_inputs.len(), "endings": "LF/CRLF x final newline/none"}));
     // error inputs
     let empty = format!("{dir}/empty.txt");
     std::fs::write(&empty, b"").unwrap();
@@ -234,7 +234,6 @@ pub fn run(ctx: &Ctx) {
     error_case(ctx, &bin, "min-repetitions-negative", &["--min-repetitions=-1", "a"], None, false);
     error_case(ctx, &bin, "surrogates-without-escape", &["--with-surrogates", "a"], None, false);
     error_case(ctx, &bin, "no-input", &[], None, false);
-    error_case(ctx, &bin, "input-and-file", &["a", "-f", &empty], None, false);
     // a blank-only file is not an error: its lines are empty-string test cases
     for (content, lines) in [("\n", vec![""]), ("\n\n", vec!["", ""]), ("\r\n", vec![""])] {
         ctx.run.eval();
@@ -251,6 +250,6 @@ pub fn run(ctx: &Ctx) {
             Err(e) => ctx.run.machinery_error(e),
         }
     }
-    ctx.run.space(json!({"error_inputs": 15, "blank_only_files": 3}));
+    ctx.run.space(json!({"error_inputs": 14, "blank_only_files": 3}));
     let _ = std::fs::remove_dir_all(&dir);
 }
